@@ -220,26 +220,128 @@ def run(rep: Report, prog: Program, tier: str) -> None:
             rep.ok("R5.4")
         else:
             rep.fail("R5.4", "legacy-wrapper|args", f"legacy adapter calls the strategy with {[show(a) for c in calls for a in c.args]}; expected (ctx.attempt, ctx.klass, ctx.prev_sleep_s)", where=wrapped.where(), function=wrapped.qual)
-    arities: dict[Any, str] = {}
-    for p in engine(prog).paths(nf):
-        ar = None
-        for a, pol, _ in p.conds:
-            if a[0] == "cmp" and a[1] == "==" and a[2][0] == "pure" and a[2][1] == "len" and a[3][0] == "const" and pol:
-                ar = a[3][1]
-        kwonly = any(a[0] == "free" or (a[0] in ("pure", "comp") and pol) for a, pol, _ in p.conds if a == p.env.get("required_kwonly"))
-        if p.exit[0] == "return":
-            res = "identity" if p.exit[1] == ("param", "strategy") else ("wrapper" if p.exit[1] == ("global", wrapped.qual) else show(p.exit[1]))
-        else:
-            res = "raise " + str(p.exit[1])
-        if ar is not None:
-            arities[ar] = res
-        elif p.exit[0] == "raise":
-            arities.setdefault("other", res)
-    rep.instance("R5.4", "arity-table", {"table": {str(k): v for k, v in arities.items()}})
-    if arities.get(1) == "identity" and arities.get(3) == "wrapper" and arities.get("other") == "raise TypeError":
+    # arity table, decided on an abstract domain of signature shapes: every `len(<list of parameters>) == n` /
+    # truthiness test is evaluated on the shape after decoding the list comprehension that builds the list
+    # (which parameter kinds it keeps, whether it keeps only the ones without default)
+    comps = {id(n): n for n in ast.walk(nf.node) if isinstance(n, ast.ListComp)}
+    assigns: dict[str, list[ast.expr]] = {}
+    for n in prog._own_nodes(nf.node):
+        if isinstance(n, ast.Assign) and len(n.targets) == 1 and isinstance(n.targets[0], ast.Name):
+            assigns.setdefault(n.targets[0].id, []).append(n.value)
+    POS = {"POSITIONAL_ONLY", "POSITIONAL_OR_KEYWORD"}
+    ALLK = POS | {"KEYWORD_ONLY", "VAR_POSITIONAL", "VAR_KEYWORD"}
+
+    def descriptor(node: ast.expr, depth: int = 0) -> tuple[frozenset, bool | None]:
+        """(parameter kinds kept, required filter: True = only without default, False = only with default, None = both)"""
+        if depth > 4:
+            raise AnalysisError("_normalize_strategy: parameter-list definitions nest too deeply")
+        if isinstance(node, ast.Name):
+            vals = assigns.get(node.id, [])
+            if len(vals) != 1:
+                raise AnalysisError(f"_normalize_strategy: `{node.id}` is not bound exactly once")
+            return descriptor(vals[0], depth + 1)
+        if isinstance(node, ast.Call) and isinstance(node.func, ast.Name) and node.func.id in ("list", "tuple") and len(node.args) == 1:
+            return descriptor(node.args[0], depth + 1)
+        if isinstance(node, ast.Call) and isinstance(node.func, ast.Attribute) and node.func.attr == "values" and isinstance(node.func.value, ast.Attribute) and node.func.value.attr == "parameters":
+            return frozenset(ALLK), None
+        if not isinstance(node, (ast.ListComp, ast.GeneratorExp)) or len(node.generators) != 1:
+            raise AnalysisError(f"_normalize_strategy: cannot decode the parameter list `{ast.unparse(node)[:60]}`")
+        g = node.generators[0]
+        if not (isinstance(g.target, ast.Name) and isinstance(node.elt, ast.Name) and node.elt.id == g.target.id):
+            raise AnalysisError("_normalize_strategy: parameter-list comprehension does not keep the parameters themselves")
+        kinds, req = descriptor(g.iter, depth + 1)
+        v = g.target.id
+        conj: list[ast.expr] = []
+        for c in g.ifs:
+            conj.extend(c.values if isinstance(c, ast.BoolOp) and isinstance(c.op, ast.And) else [c])
+        for c in conj:
+            ok = False
+            if isinstance(c, ast.Compare) and len(c.ops) == 1 and isinstance(c.left, ast.Attribute) and isinstance(c.left.value, ast.Name) and c.left.value.id == v:
+                op, right = c.ops[0], c.comparators[0]
+                if isinstance(right, ast.Name) and right.id in nf.module.assigns:
+                    right = nf.module.assigns[right.id]  # a hoisted module constant
+                if c.left.attr == "kind":
+                    names = [x.attr for x in (right.elts if isinstance(right, (ast.Tuple, ast.Set, ast.List)) else [right]) if isinstance(x, ast.Attribute)]
+                    if names and all(nm in ALLK for nm in names):
+                        if isinstance(op, (ast.In, ast.Is, ast.Eq)):
+                            kinds, ok = kinds & frozenset(names), True
+                        elif isinstance(op, (ast.NotIn, ast.IsNot, ast.NotEq)):
+                            kinds, ok = kinds - frozenset(names), True
+                elif c.left.attr == "default" and isinstance(right, ast.Attribute) and right.attr in ("empty", "_empty"):
+                    want = isinstance(op, (ast.Is, ast.Eq))
+                    if isinstance(op, (ast.Is, ast.Eq, ast.IsNot, ast.NotEq)):
+                        if req is not None and req != want:
+                            kinds = frozenset()
+                        req, ok = want, True
+            if not ok:
+                raise AnalysisError(f"_normalize_strategy: cannot decode the parameter filter `{ast.unparse(c)[:60]}`")
+        return kinds, req
+
+    import itertools
+
+    from ..paths import CannotEval, truth
+
+    npaths = [p for p in engine(prog).paths(nf)]
+    mismatches: list[str] = []
+    n_shapes = 0
+    for rp, op_, kr, ko, vp, vk in itertools.product(range(5), range(4), range(2), range(2), range(2), range(2)):
+        n_shapes += 1
+        # a shape: counts of (kind group, has default)
+        def count(d: tuple[frozenset, bool | None]) -> int:
+            kinds, req = d
+            tot = 0
+            if kinds & POS:
+                if req in (True, None):
+                    tot += rp
+                if req in (False, None):
+                    tot += op_
+            if "KEYWORD_ONLY" in kinds:
+                if req in (True, None):
+                    tot += kr
+                if req in (False, None):
+                    tot += ko
+            if "VAR_POSITIONAL" in kinds and req in (True, None):
+                tot += vp
+            if "VAR_KEYWORD" in kinds and req in (True, None):
+                tot += vk
+            return tot
+
+        def leaf(t: Any) -> Any:
+            if t[0] == "comp" and t[1] in comps:
+                return ("p",) * count(descriptor(comps[t[1]]))
+            if t[0] == "pure" and t[1] == "len" and len(t[2]) == 1:
+                from ..paths import evaluate
+
+                return len(evaluate(t[2][0], leaf))
+            raise CannotEval()
+
+        feas = []
+        for p in npaths:
+            ok = True
+            for a, pol, _ in p.conds:
+                try:
+                    val = bool(leaf(a)) if a[0] == "comp" else truth(a, leaf)
+                except CannotEval:
+                    raise AnalysisError(f"_normalize_strategy: condition `{show(a)}` is not a test on the decoded parameter lists")
+                if val != pol:
+                    ok = False
+                    break
+            if ok:
+                feas.append(p)
+        outs = set()
+        for p in feas:
+            if p.exit[0] == "return":
+                outs.add("identity" if p.exit[1] == ("param", nf.param_names()[0]) else ("wrapper" if p.exit[1] == ("global", wrapped.qual) else show(p.exit[1])))
+            else:
+                outs.add("raise " + str(p.exit[1]))
+        want = "raise TypeError" if kr > 0 else ("identity" if rp == 1 else ("wrapper" if rp == 3 else "raise TypeError"))
+        if outs != {want}:
+            mismatches.append(f"(required positional={rp}, optional positional={op_}, required kw-only={kr}, *args={vp}, **kw={vk}): {sorted(outs)} instead of {want}")
+    rep.instance("R5.4", "arity-table", {"shapes": n_shapes, "mismatches": mismatches[:5]})
+    if not mismatches:
         rep.ok("R5.4")
     else:
-        rep.fail("R5.4", "arity-table", f"_normalize_strategy arity table is {arities}; expected 1 -> identity, 3 -> wrapper, else TypeError", where=nf.where(), function=nf.qual)
+        rep.fail("R5.4", "arity-table", f"_normalize_strategy decides by the wrong parameter list on {len(mismatches)} of {n_shapes} signature shapes, e.g. {mismatches[0]}; expected: required keyword-only -> TypeError, one required positional -> the strategy itself, three required positional -> legacy wrapper, else TypeError", where=nf.where(), function=nf.qual)
     rep.floor("R5.4", 2)
 
     rep.rule("R5.5", "downstream: the sleep handler, before_sleep and the sleeper receive decision.sleep_s unmodified; SCHEDULED reports it (= C16 R16.3)")
